@@ -40,6 +40,7 @@ def PointS(): return Struct(M.Point, {"x": Int(), "y": Int()})
 def SPointS(): return Struct(M.SPoint, {"x": Int(), "name": Str()})
 def FPointS(): return Struct(M.FPoint, {"x": Int(), "flag": Bool()})
 def KPointS(): return Struct(M.KPoint, {"x": Int(), "y": Str()})
+def WithCVS(): return Struct(M.WithCV, {"x": Int(), "label": Str()})
 def NFHolderS(): return Struct(M.NFHolder, {"when": Opt(DateS(), "none_first"), "who": Opt(FPointS(), "Union_none_first")})
 def LineS(): return Struct(M.Line, {"a": PointS(), "b": PointS(), "label": Str()})
 def BagS(): return Struct(M.Bag, {"items": ListOf(Int()), "names": DictOf(Str(), Int()), "maybe": Opt(Int())})
@@ -159,8 +160,8 @@ def _opt_of(inner, T, name, live):
 
 # ------------------------------------------------------------------------------------------- catalogue
 def scalars_transparent():
-    return [Int(), Bool(), Float(), Str(), Bytes(), NoneS(), EnumS(M.Color), EnumS(M.Mood), EnumS(M.Level), EnumS(M.Tag),
-            Lit(1, 2, "a"), Lit("x", "y"), Lit(True, 3)]
+    return [Int(), Bool(), Float(), Str(), Bytes(), ByteArrayS(), NoneS(), EnumS(M.Color), EnumS(M.Mood), EnumS(M.Level), EnumS(M.Tag),
+            EnumS(M.Swap), EnumS(M.Kind), Lit(1, 2, "a"), Lit("x", "y"), Lit(True, 3), Lit("2", 2, "null", None)]
 
 
 def scalars_realised():
@@ -179,7 +180,8 @@ def containers1():
         Seq(t.MutableSequence[int], list, Int(), 2, "MutableSequence[int]"),
         Seq(t.Collection[int], list, Int(), 2, "Collection[int]"),
         Seq(t.Iterable[int], list, Int(), 2, "Iterable[int]"),
-        Seq(t.AbstractSet[int], set, Int(-2, 2), 2, "AbstractSet[int]"),
+        Seq(t.AbstractSet[int], set, Int(-2, 2), 2, "AbstractSet[int]"), MutableSetOf(Int(-2, 2)),
+        Opt(Str(), "pipe"), Opt(Bool(), "pipe"),
         Seq(t.Deque[int], collections.deque, Int(), 2, "Deque[int]"),
         Map(t.MutableMapping[str, int], dict, Str(), Int(), 2, "MutableMapping[str,int]"),
         Map(t.Dict[str, int], dict, Str(), Int(), 2, "Dict[str,int]"),
@@ -188,7 +190,7 @@ def containers1():
 
 def structured():
     return [PointS(), SPointS(), FPointS(), KPointS(), LineS(), BagS(), MixedS(), NTS_(), NTSS(), TDS(), TDNS(),
-            TDChildS(), TDReqS(), PlainS(), SlottedS(), SubNTS(), PlainNTS()]
+            TDChildS(), TDReqS(), PlainS(), SlottedS(), SubNTS(), PlainNTS(), WithCVS()]
 
 
 def wrappers():
@@ -239,7 +241,7 @@ CORE = {
     "Tree", "Chain", "DNode", "Ping", "Dept", "NTree", "TDNode", "Item", "Cyc", "Ind",
     "list[list[int]]", "dict[str,list[int]]", "list[Point]", "dict[str,Point]", "list[Optional[int]]",
     "tuple[Point,list[int]]", "Optional[Point]", "list[date]", "list[TD]", "list[tuple[int,str]]",
-    "Union[int,str]", "Union[Point,int]", "list[Union[int,str]]", "PlainNT", "None|date", "None|SPoint", "NFHolder",
+    "Union[int,str]", "Union[Point,int]", "list[Union[int,str]]", "PlainNT", "None|date", "None|SPoint", "NFHolder", "Swap", "Kind", "bytearray", "MutableSet[int]", "str|None", "WithCV", "Literal['2', 2, 'null', None]",
 }
 
 
